@@ -5,6 +5,9 @@ says about it (computed from how the token was constructed, never from the model
 import itertools
 import os
 import json
+import sys
+
+sys.setrecursionlimit(20000)        # documents nested several hundred levels deep are built and walked recursively
 
 import keys as K
 from lib import hx
@@ -13,6 +16,9 @@ from world import seg, hs_sig
 ALG_NAMES = ["none", "HS256", "HS384", "HS512", "RS256", "RS384", "RS512", "ES256", "ES384", "ES512",
              "PS256", "PS384", "PS512", "ES256K", "EdDSA"]
 FAMILY, EC_BITS, HS_MIN, usable = K.FAMILY, K.EC_BITS, K.HS_MIN, K.usable
+
+
+SIZED_RSA = [2054, 2056, 2058, 2062, 2064, 2066, 2068, 2070, 2072, 3072, 3074, 3078, 4096, 8192]
 
 
 class KeyPool:
@@ -32,13 +38,26 @@ class KeyPool:
         if tier != "thorough" and not want:
             self.rare = {name: K.gen_key(kind, param, ctx.scratch) for name, kind, param in
                          [("rsapss2048", "rsapss", 2048), ("p384", "ec", "P-384"), ("p521", "ec", "P-521"), ("k256", "ec", "secp256k1"), ("oct64", "oct", 64)]}
+        # RSA keys of sizes around the points where the signature gains an octet and its base64url text gains a character
+        # or a quad (bits mod 8, octets mod 3), and the big ones; from harness/keycache (slow to make)
+        self.sized = {}
+        if not want:
+            self.sized = {"rsa%d" % b: K.cached_key("rsa", b, ctx.scratch) for b in SIZED_RSA}
         self.oracle = oracle
         self.sig_cache = {}
         self.okid = {}
 
+    def light(self, thorough=False):
+        """the keys used with a lighter case set: (name, key, algorithms)"""
+        out = [(n, k, k.admissible_algs()) for n, k in self.rare.items()]
+        for n, k in self.sized.items():
+            algs = k.admissible_algs()
+            out.append((n, k, algs if thorough else [algs[0], algs[4]]))
+        return out
+
     def sign(self, name, alg, msg):
         """valid raw signature (b64url text) by key `name` for `alg` over msg, or None"""
-        key = self.keys[name] if name in self.keys else self.rare[name]
+        key = self.keys[name] if name in self.keys else (self.rare[name] if name in self.rare else self.sized[name])
         if key.kind == "oct":
             if alg not in HS_MIN:
                 return None
@@ -302,10 +321,10 @@ def verify_sig(world, pool, tier, rng, provider="openssl"):
     names = list(pool.keys)
     # the rarer key types with a lighter mutation set
     rs = 60
-    for rname, rkey in getattr(pool, "rare", {}).items():
+    for rname, rkey, ralgs in pool.light(thorough):
         rit = world.add_key(rs, rkey, private=(rkey.kind == "oct"), alg_attr=None)
         rs += 1
-        for alg in rkey.admissible_algs():
+        for alg in ralgs:
             if provider == "gnutls" and alg == "ES256K":
                 continue
             msg, sig = signed_token(pool, rname, alg, payload={"sub": "rare", "n": 2})
@@ -317,7 +336,10 @@ def verify_sig(world, pool, tier, rng, provider="openssl"):
             muts = [("valid", msg + b"." + sig, True), ("pay-char", msg[:-1] + (b"A" if msg[-1:] != b"A" else b"B") + b"." + sig, False),
                     ("sig-removed", msg + b".", False), ("sig-trunc-end", msg + b"." + sig[:-2], False),
                     ("sig-zero-prefix", msg + b"." + K.b64u(b"\x00" + raw).encode(), False),
-                    ("sig-zero-suffix", msg + b"." + K.b64u(raw + b"\x00").encode(), False)]
+                    ("sig-zero-suffix", msg + b"." + K.b64u(raw + b"\x00").encode(), False),
+                    ("sig-ext-end", msg + b"." + sig + b"A", False), ("sig-ext-end", msg + b"." + sig + b"AAAA", False),
+                    ("sig-ext-end", msg + b"." + sig + b"Zm9v" * 1000, False), ("sig-ext-start", msg + b"." + b"AAAA" + sig, False),
+                    ("sig-trunc-start", msg + b"." + sig[4:], False)]
             for _ in range(6):
                 b_ = rng.randrange(len(raw) * 8)
                 r2 = bytearray(raw)
@@ -1660,13 +1682,15 @@ def roundtrip_suite(world, pool, tier, rng):
     # an RSA modulus whose bit length is not a multiple of 8 (signature length is ceil(bits/8) octets)
     odd = dict(pool.keys)
     odd["rsa2050"] = K.gen_key("rsa", 2050, world.ctx.scratch)
-    for rn_, rk_ in getattr(pool, "rare", {}).items():
+    alg_sel = {}
+    for rn_, rk_, ra_ in pool.light(thorough):
         odd[rn_] = rk_
+        alg_sel[rn_] = ra_
     for name, key in odd.items():
         priv = world.add_key(s, key, private=True, alg_attr=None)
         pub = world.add_key(s + 1, key, private=(key.kind == "oct"), alg_attr=None)
         s += 2
-        for alg in key.admissible_algs():
+        for alg in alg_sel.get(name, key.admissible_algs()):
             a = K.ALG_ORD[alg]
             rare_ = name not in pool.keys
             n = (3 if rare_ else per_key) + (ec_extra if key.kind == "ec" and not rare_ else 0)
@@ -1737,6 +1761,22 @@ def roundtrip_suite(world, pool, tier, rng):
         world.op("bl 6 hset json - %s 1" % hx(JL.dumps({"x": tree} if len(JL.dumps(tree)) < 20000 else {"x": 1})), tag="cfg")
         eh = {"alg": "HS256", "typ": "JWT", "x": tree if len(JL.dumps(tree)) < 20000 else 1}
         metas.append((len(world.ops), {"kind": "gen", "hdr": JL.jenc(eh), "pay": JL.jenc(tree), "alg": "HS256", "now": 5000, "seq": "size: " + what, "prog": None}))
+        world.op("bl 6 gen", tag="gen")
+        world.op("ck 6 new", tag="cfg")
+        world.op("ck 6 setkey 0 %d %d" % kbp, tag="cfg")
+        metas.append((len(world.ops), {"kind": "verify-generated", "key": "oct32", "alg": "HS256", "sign": "openssl", "verify": "openssl", "want_obs": None}))
+        world.op("ck 6 verify @last", tag="verify")
+    # member names: a header or claim may be called anything -- every first character of the printable range (names that sort
+    # ahead of "alg" become the first member of the header and change how the token starts), a few longer and non-ASCII ones
+    names_ = [chr(c_) + "n" for c_ in range(0x20, 0x7f)] + [chr(c_) for c_ in (0x21, 0x30, 0x7e)] + ["\u00e9", "\u20ac", "\x01x", "0", "00", "2fa", "#ref", "$schema", " padded", "-", "~"]
+    for nm_ in names_:
+        world.op("bl 6 new", tag="cfg")
+        world.op("bl 6 setkey 0 %d %d" % kbp, tag="cfg")
+        world.op("bl 6 iat 0", tag="cfg")
+        world.op("bl 6 cset json - %s 1" % hx(JL.dumps({nm_: "c"})), tag="cfg")
+        world.op("bl 6 hset json - %s 1" % hx(JL.dumps({nm_: "h"})), tag="cfg")
+        metas.append((len(world.ops), {"kind": "gen", "hdr": JL.jenc({"alg": "HS256", "typ": "JWT", nm_: "h"}), "pay": JL.jenc({nm_: "c"}), "alg": "HS256", "now": 5000,
+                                       "seq": "member name %r" % nm_, "prog": None}))
         world.op("bl 6 gen", tag="gen")
         world.op("ck 6 new", tag="cfg")
         world.op("ck 6 setkey 0 %d %d" % kbp, tag="cfg")
@@ -1924,6 +1964,25 @@ def builder_routes_suite(world, pool, tier, rng, extra_keys=None):
                         metas.append((len(world.ops), {"kind": "gen-route", "key": name, "private": private, "attr": attr, "cfg_alg": cfg_alg,
                                                        "route": route, "expect": expect}))
                         world.op("bl 0 gen", tag="gen")
+    # the rarer key types and the RSA keys of unusual sizes, lighter: a builder that holds a usable key signs
+    for provider in ("openssl", "gnutls"):
+        world.op("prov name " + hx(provider.encode()), tag="cfg")
+        for name, key, algs in pool.light(tier == "thorough"):
+            it = world.add_key(s, key, private=True, alg_attr=None)
+            s += 1
+            for alg_name in algs:
+                if alg_name == "ES256K" and provider == "gnutls":
+                    continue
+                for route in ("setkey", "cb-key-alg"):
+                    world.op("bl 0 new", tag="cfg")
+                    if route == "setkey":
+                        world.op("bl 0 setkey %d %d %d" % ((K.ALG_ORD[alg_name],) + it), tag="cfg")
+                    else:
+                        world.op("bl 0 setcb key:%d:%d,alg:%d" % (it + (K.ALG_ORD[alg_name],)), tag="cfg")
+                    metas.append((len(world.ops), {"kind": "gen-route", "key": name, "private": True, "attr": None, "cfg_alg": K.ALG_ORD[alg_name],
+                                                   "route": route + " under " + provider, "expect": "signed:" + alg_name}))
+                    world.op("bl 0 gen", tag="gen")
+    world.op("prov name " + hx(b"openssl"), tag="cfg")
     return metas
 
 
@@ -2391,8 +2450,11 @@ def providers_suite(world, pool, tier, rng):
     xkeys = dict(pool.keys)
     for n_ in (63, 64, 65, 96, 127, 128, 129, 200):
         xkeys["oct%d" % n_] = K.Key("oct", k=bytes(rng.randrange(256) for _ in range(n_)), bits=8 * n_)
-    for rn_, rk_ in getattr(pool, "rare", {}).items():
-        xkeys.setdefault(rn_, rk_)
+    alg_sel = {}
+    for rn_, rk_, ra_ in pool.light(tier == "thorough"):
+        if rn_ not in xkeys:
+            xkeys[rn_] = rk_
+            alg_sel[rn_] = ra_
     for load_under in PROVIDER_NAMES:
         world.op("prov name " + hx(load_under), tag="cfg")
         items = {}
@@ -2401,7 +2463,7 @@ def providers_suite(world, pool, tier, rng):
             s += 2
         for name, key in xkeys.items():
             priv, pub = items[name]
-            for alg in key.admissible_algs():
+            for alg in alg_sel.get(name, key.admissible_algs()):
                 if alg == "ES256K":
                     continue
                 deterministic = alg.startswith(("HS", "RS")) or alg == "EdDSA"
@@ -2474,4 +2536,120 @@ def ecdsa_volume_suite(world, pool, tier, rng, curves):
                 metas.append((len(world.ops), {"kind": "verify-generated", "key": cname, "alg": alg, "sign": signer, "verify": verifier, "want_obs": ""}))
                 world.op("ck 0 verify @last", tag="verify")
     world.op("prov name " + hx(b"openssl"), tag="cfg")
+    return metas
+
+
+# =====================================================================================
+# sizes: every sweep stands on both sides of the usual buffer sizes, and of any size that newly appears in the source
+# =====================================================================================
+HINTS = []          # set by ./check from tie/fingerprint.py hints (empty on the tree the model was validated against)
+STD_SIZES = [15, 16, 17, 31, 32, 33, 63, 64, 65, 127, 128, 129, 191, 192, 193, 255, 256, 257, 511, 512, 513, 1023, 1024, 1025,
+             2047, 2048, 2049, 4095, 4096, 4097]
+
+
+def sizes(base, lo=0, hi=None):
+    """`base` plus both sides of every hinted size -- as it stands, as the length of its base64 text and as the number of
+    octets such a text decodes to"""
+    out = set(base)
+    for h in HINTS:
+        for v in (h, -(-4 * h // 3), 3 * h // 4):
+            out.update(range(v - 2, v + 3))
+    return sorted(v for v in out if v >= lo and (hi is None or v <= hi))
+
+
+# =====================================================================================
+# header histories (C02, C11, C13, C19, C01): what one token's header was must not colour the next token
+# =====================================================================================
+def _hdr_text(before, total, algv, fill=b"x"):
+    """header JSON of exactly `total` bytes whose alg VALUE (quotes included) starts at byte offset `before`"""
+    pre, mid, post = b'{"typ":"JWT","a":"', b'","alg":', b',"z":"'
+    p1 = before - len(pre) - len(mid)
+    if p1 < 0:
+        return None
+    body = pre + b"p" * p1 + mid + algv + post
+    p2 = total - len(body) - 2
+    if p2 < 0:
+        return None
+    return body + fill * p2 + b'"}'
+
+
+def header_history_suite(world, pool, tier, rng):
+    """Two tokens in a row on one checker (and on two checkers of one thread): the first is genuine; the second has a header
+    of the same length that agrees with the first one's for the first k characters of its base64url text and then names
+    another algorithm (or none, or no algorithm of this library), or is the first header with characters appended.
+    k and the header length run over both sides of the usual buffer sizes.  The signature of the second token is a correct
+    signature, under the checker's key and algorithm, over the second token's own text -- only the header decides.
+    Then the first token again."""
+    metas = []
+    thorough = tier == "thorough"
+    b64 = lambda b: K.b64u(b).encode()
+    ks = sizes([0, 30, 47, 48, 49, 61, 62] + STD_SIZES + [700, 1366, 3000], lo=0, hi=9000)
+    cfgs = []
+    for k in ks:
+        before = max(26, -(-3 * k // 4))
+        cfgs.append((before, before + 34, "first %d characters shared, short tail" % k))
+        if k >= 40:
+            n = 3 * k // 4
+            cfgs.append((n - 22, n, "length %d characters, difference at the end" % k))
+            cfgs.append((26, n, "length %d characters, difference at the start" % k))
+    if not thorough and len(cfgs) > 110:
+        keep = [c for c in cfgs if any(abs(c[1] * 4 // 3 - h) < 8 or abs(c[0] * 4 // 3 - h) < 8 for h in HINTS)]
+        cfgs = keep + rng.sample([c for c in cfgs if c not in keep], 110 - min(110, len(keep)))
+    payload = seg({"sub": "hh", "exp": 5000})
+    world.op("clock 1000", tag="cfg")
+    world.op("prov name " + hx(b"openssl"), tag="cfg")
+    fam = [("oct32", "HS256", [b'"HS512"', b'"HS384"', b'"hs256"', b'"none"', b'"RS256"', b'"HS256"'])]
+    if "rsa2048" in pool.keys:
+        fam.append(("rsa2048", "RS256", [b'"PS256"', b'"HS256"', b'"none"', b'"RS512"', b'"RS256"']))
+    slot = 960
+    for name, alg, others in fam:
+        key = pool.keys[name]
+        a = K.ALG_ORD[alg]
+        it = world.add_key(slot, key, private=(key.kind == "oct"), alg_attr=None)
+        slot += 1
+        mine = cfgs if key.kind == "oct" else (cfgs if thorough else [c for i, c in enumerate(cfgs) if i % 6 == 0])
+
+        def sign(msg):
+            return hs_sig(a, key.k, msg) if key.kind == "oct" else pool.sign(name, alg, msg)
+
+        for ci, (before, total, what) in enumerate(mine):
+            h0 = _hdr_text(before, total, b'"%s"' % alg.encode())
+            if h0 is None:
+                continue
+            m0 = b64(h0) + b"." + payload
+            t0 = m0 + b"." + sign(m0)
+            probes = []
+            for ov in others:
+                same_alg = ov == b'"%s"' % alg.encode()
+                h1 = _hdr_text(before, total, ov, fill=b"y" if same_alg else b"x")
+                if h1 is None:
+                    continue
+                m1 = b64(h1) + b"." + payload
+                probes.append(("header names %s" % ov.decode() if not same_alg else "same algorithm, another header member differs",
+                               m1 + b"." + sign(m1), same_alg, same_alg))
+                if ov == b'"none"':
+                    probes.append(("header names none, no signature", m1 + b".", False, False))
+            for junk in (b"!", b"A", b"AA", b"AAAAA", b"=", b"\x80", b" ", b"-_", b"e30"):
+                hs = b64(h0) + junk
+                m1 = hs + b"." + payload
+                # a foreign byte or an impossible length must be refused; what the longer text decodes to otherwise (the
+                # document read up to a NUL, for one) is the model's business
+                probes.append(("first header's text with %r appended" % junk, m1 + b"." + sign(m1), None if py_lenient_b64(hs) is not None else False, False))
+            if not thorough:
+                probes = probes[:len(others) + 1][::1 + ci % 2] + rng.sample(probes[len(others) + 1:], 3)
+            for pi, (pwhat, t1, may, must) in enumerate(probes):
+                two = (ci + pi) % 3 == 0          # the second token goes to another checker of the same thread
+                obs = (ci + pi) % 2 == 0
+                for c in ((0, 1) if two else (0,)):
+                    world.op("ck %d new" % c, tag="cfg")
+                    world.op("ck %d setkey %d %d %d" % ((c, a) + it), tag="cfg")
+                    if obs:
+                        world.op("ck %d setcb hget:json:-" % c, tag="cfg")
+                seq = [(0, t0, True, True, "the genuine token"), (1 if two else 0, t1, may, must, pwhat), (0, t0, True, True, "the genuine token again")]
+                for c, tok, may_, must_, w in seq:
+                    md = {"kind": "verify", "key": name, "alg": alg, "mut": "%s; %s" % (what, w), "must_accept": must_}
+                    if may_ is not None:
+                        md["may_accept"] = may_
+                    metas.append((len(world.ops), md))
+                    world.op("ck %d verify %s" % (c, hx(tok)), tag="verify")
     return metas
